@@ -37,6 +37,13 @@ TRIGGERS = [
     ('remove_debug', 'other_is_true', 'flag = True\nif flag is True:\n    result.append(4)', True),
     ('remove_debug', 'other_eq_true', 'flag = 1\nif flag == True:\n    result.append(4)', True),
     ('remove_debug', 'other_is_not_false', 'flag = None\nif flag is not False:\n    result.append(4)', True),
+    ('remove_debug', 'debug_is_not_none', 'if __debug__ is not None:\n    result.append(4)', True),
+    ('remove_debug', 'debug_is_not_name', 'marker = 0\nif __debug__ is not marker:\n    result.append(4)', True),
+    ('remove_debug', 'debug_is_name', 'marker = False\nif __debug__ is marker:\n    result.append(4)', True),
+    ('remove_debug', 'debug_eq_name', 'marker = False\nif __debug__ == marker:\n    result.append(4)', True),
+    ('remove_debug', 'debug_is_not_none_else', 'if __debug__ is not None:\n    result.append(4)\nelse:\n    result.append(5)', True),
+    ('remove_debug', 'debug_eq_one', 'if __debug__ == 1:\n    result.append(4)', True),
+    ('remove_debug', 'debug_chained', 'if __debug__ is True is True:\n    result.append(4)', True),
     ('remove_debug', 'true_is_debug', 'if True is __debug__:\n    result.append(4)', True),
     ('remove_debug', 'while_debug', 'while __debug__:\n    result.append(4)\n    break', True),
     ('remove_debug', 'ifexp_debug', 'result.append(4 if __debug__ else 5)', True),
